@@ -95,6 +95,11 @@ func signingAlphabet(ce *Ceremony, batches int) ([]*exEvent, error) {
 		m.ID = "partial-wrongsig"
 		out = append(out, &exEvent{Label: fmt.Sprintf("partial(%d,b1,wrongsig)", p), Kind: "partial", P: p, Phase: 1, Batch: batchName(1), Variant: "wrongsig", Msg: m, Known: true})
 	}
+	{
+		m := world.SignMsg(w.Nodes[n-1], ce.Round, EvPartialErr, mkReq(map[string]interface{}{"ParticipantId": n - 1, "Error": "bad \x01\x07\x7f\v \"quoted\" end", "CreatedAt": t0}), "")
+		m.ID = "partialerr-hostile"
+		out = append(out, &exEvent{Label: fmt.Sprintf("partialerr(%d,hostile-text)", n-1), Kind: "partialerr", P: n - 1, Msg: m, Known: true})
+	}
 	fe := requests.NewFSMError(fmt.Errorf("machine failed"))
 	for p := 0; p <= n; p++ {
 		m := world.SignMsg(w.Nodes[p%n], ce.Round, EvPartialErr, mkReq(requests.SignatureProposalConfirmationErrorRequest{ParticipantId: p, Error: fe, CreatedAt: t0}), "")
